@@ -269,6 +269,12 @@ def check_seq(prop, tier):
     for ce in mc.get("violations", []):
         viol.append(ce)
 
+    if prop == "C02" and tier == "thorough":
+        extra_cov["apalache_inductive_invariants"] = mccheck.apalache_bonus(os.path.join(wd, "apalache"))
+        for m in extra_cov["apalache_inductive_invariants"]:
+            if any(o["counterexample"] for o in m["obligations"]):
+                infra = "Apalache refutes the inductive invariant of %s" % m["module"]
+
     # 2. model-derived call sequences (transition cover + identifying suffixes)
     derived = mccheck.derived_executions(prop, tier, wd, rng)
     all_execs = derived + execs
